@@ -514,6 +514,7 @@ fn kind_json(k: &Kind) -> serde_json::Value {
         Kind::RandomWalk { switch_permille } => serde_json::json!({"kind": "random-walk", "switch_permille": switch_permille}),
         Kind::Pct { points } => serde_json::json!({"kind": "pct", "points": points}),
         Kind::Replay { decisions } => serde_json::json!({"kind": "replay", "decisions": decisions.len()}),
+        Kind::Focus { park_permille, park_steps } => serde_json::json!({"kind": "focus", "park_permille": park_permille, "park_steps": park_steps}),
     }
 }
 
@@ -548,6 +549,7 @@ fn minimise(
         Kind::RandomWalk { switch_permille: 500 },
         Kind::RandomWalk { switch_permille: 100 },
         Kind::RandomWalk { switch_permille: 20 },
+        Kind::Focus { park_permille: 500, park_steps: 1_000_000 },
     ];
     let mut progress = true;
     while progress && *budget > 0 {
@@ -709,7 +711,9 @@ fn leg_b(o: &Opts) -> i32 {
         let max_steps = (base_steps as usize) * 50 + 10_000;
         let mut results = vec![(Kind::RandomWalk { switch_permille: 0 }, base)];
         for _ in 1..schedules_per_scenario {
-            let kind = match rng.below(7) {
+            let kind = match rng.below(9) {
+                7 => Kind::Focus { park_permille: 500, park_steps: base_steps * 4 },
+                8 => Kind::Focus { park_permille: 150, park_steps: base_steps },
                 0 => Kind::RandomWalk { switch_permille: 20 },
                 1 => Kind::RandomWalk { switch_permille: 100 },
                 2 => Kind::RandomWalk { switch_permille: 500 },
@@ -730,6 +734,8 @@ fn leg_b(o: &Opts) -> i32 {
             rep.count("scheduler_steps", r.trace.steps);
             rep.count("context_switches", r.trace.switches);
             rep.count("preemptions_between_caller_tasks", r.trace.preemptions);
+            rep.count("interesting_points_simfony_level_sync_operations", r.trace.interesting_points);
+            rep.count("tasks_parked_at_an_interesting_point", r.trace.parks);
             let dkey = fnv1a(&r.trace.decisions.iter().flat_map(|d| d.to_le_bytes()).collect::<Vec<u8>>());
             let verdict = judge(&sc, &r, &reference, max_steps);
             rep.event(&format!(
